@@ -220,6 +220,12 @@ func (p *Prog) resolveType(pkgPath, expr string) types.Type {
 		return nil
 	}
 	expr = strings.TrimSpace(expr)
+	// a named type renamed since the contracts were written (see resolveRenames)
+	for was, is := range typeAlias[pkgPath] {
+		if containsIdent(expr, was) {
+			expr = replaceIdent(expr, was, is)
+		}
+	}
 	switch expr {
 	case "int":
 		return types.Typ[types.Int]
@@ -605,6 +611,7 @@ func sameStrings(a, b []string) bool {
 // for struct types whose fields were renamed. Both are filled by resolveRenames from contracts/signatures.json.
 var funcAlias = map[*ssa.Function]string{}
 var structAlias = map[*types.Struct]map[string]string{}
+var typeAlias = map[string]map[string]string{} // package path -> recorded type name -> current type name
 
 // resolveRenames makes contracts survive the renaming of an unexported function, method or struct field:
 //   - a contract whose target no longer exists is attached to the only function of the same package that has no
@@ -617,6 +624,105 @@ func (p *Prog) resolveRenames() {
 	p.loadSignatures()
 	if len(p.sigs) == 0 {
 		return
+	}
+	// named struct types: a recorded type that no longer exists and a new, unrecorded type of the same package with the
+	// same field names and the same field types (up to the type's own name) are the same type under a new name
+	for _, sp := range p.ssaPkgs {
+		if sp == nil || !strings.HasPrefix(sp.Pkg.Path(), p.modPath) {
+			continue
+		}
+		pkgPath := sp.Pkg.Path()
+		current := map[string]*types.Struct{}
+		for _, m := range sp.Members {
+			if t, ok := m.(*ssa.Type); ok {
+				if st, ok := t.Type().Underlying().(*types.Struct); ok {
+					current[t.Name()] = st
+				}
+			}
+		}
+		prefix := "struct:" + p.shortKey(pkgPath+".")
+		for k, rs := range p.sigs {
+			if !strings.HasPrefix(k, prefix) {
+				continue
+			}
+			was := k[len(prefix):]
+			if strings.Contains(was, ".") || strings.Contains(was, "/") {
+				continue
+			}
+			if _, still := current[was]; still {
+				continue
+			}
+			var cands []string
+			for name, st := range current {
+				if _, recorded := p.sigs[prefix+name]; recorded || st.NumFields() != len(rs.Params) {
+					continue
+				}
+				same := true
+				for i := 0; i < st.NumFields() && same; i++ {
+					ft := types.TypeString(st.Field(i).Type(), qualPath)
+					want := ""
+					if i < len(rs.ParamTypes) {
+						want = strings.ReplaceAll(rs.ParamTypes[i], pkgPath+"."+was, pkgPath+"."+name)
+					}
+					same = st.Field(i).Name() == rs.Params[i] && ft == want
+				}
+				if same {
+					cands = append(cands, name)
+				}
+			}
+			if len(cands) == 1 {
+				if typeAlias[pkgPath] == nil {
+					typeAlias[pkgPath] = map[string]string{}
+				}
+				typeAlias[pkgPath][was] = cands[0]
+				p.sigs[prefix+cands[0]] = rs
+				p.renamed = append(p.renamed, fmt.Sprintf("type %s.%s is now called %s", p.shortKey(pkgPath), was, cands[0]))
+			}
+		}
+	}
+	// methods of renamed types, and declarations that name the type
+	if len(typeAlias) > 0 {
+		var ks []string
+		for key := range p.cs.Funcs {
+			ks = append(ks, key)
+		}
+		sort.Strings(ks)
+		for _, key := range ks {
+			fc := p.cs.Funcs[key]
+			base := key
+			if fc.Variant != "" {
+				base = strings.TrimSuffix(key, "@"+fc.Variant)
+			}
+			if p.funcs[base] != nil {
+				continue
+			}
+			for was, is := range typeAlias[fc.PkgPath] {
+				for _, form := range []string{"(*%s).", "(%s)."} {
+					o, n := fmt.Sprintf(form, was), fmt.Sprintf(form, is)
+					if !strings.Contains(fc.Target, o) {
+						continue
+					}
+					nk := fc.PkgPath + "." + strings.Replace(strings.TrimSuffix(fc.Target, "@"+fc.Variant), o, n, 1)
+					if f := p.funcs[nk]; f != nil {
+						if _, has := p.cs.Funcs[nk]; !has {
+							p.funcs[base] = f
+							p.byFn[f] = base
+							funcAlias[f] = f.Pkg.Pkg.Name() + "." + strings.TrimSuffix(fc.Target, "@"+fc.Variant)
+						}
+					}
+				}
+			}
+		}
+		for i := range p.cs.ClosesOnly {
+			if is, ok := typeAlias[p.cs.ClosesOnly[i].PkgPath][p.cs.ClosesOnly[i].Type]; ok {
+				p.cs.ClosesOnly[i].Type = is
+			}
+		}
+		for i := range p.cs.Frozen {
+			if is, ok := typeAlias[p.cs.Frozen[i].PkgPath][p.cs.Frozen[i].Type]; ok {
+				p.cs.Frozen[i].Type = is
+			}
+		}
 	}
 	renamedPrefix := map[string]string{} // old full key -> new full key
 	var keys []string
@@ -725,4 +831,22 @@ func (p *Prog) resolveRenames() {
 	}
 	fix(p.cs.ClosesOnly)
 	fix(p.cs.Frozen)
+}
+
+func replaceIdent(text, id, with string) string {
+	var b strings.Builder
+	for i := 0; i < len(text); {
+		if strings.HasPrefix(text[i:], id) {
+			before := i == 0 || !isIdentByte(text[i-1])
+			after := i+len(id) == len(text) || !isIdentByte(text[i+len(id)])
+			if before && after {
+				b.WriteString(with)
+				i += len(id)
+				continue
+			}
+		}
+		b.WriteByte(text[i])
+		i++
+	}
+	return b.String()
 }
